@@ -354,9 +354,6 @@ func (c *c17Ctx) undeletedTrigger(skey string) string {
 	if os.Getenv("C17_DUMP") != "" {
 		c.dump(skey)
 	}
-	if c.feat["mode"] == "string" && strings.Contains(c.feat["shape"], "meas_neq") {
-		return "user_path_measurement_neq"
-	}
 	for other := range c.w.ByKey {
 		// composite TSM keys are series key + "#!~#" + field: when one series key is the other plus
 		// a byte below '#', series keys and composite keys sort differently
@@ -366,6 +363,11 @@ func (c *c17Ctx) undeletedTrigger(skey string) string {
 		if len(skey) > len(other) && strings.HasPrefix(skey, other) && skey[len(other)] < '#' {
 			return "sibling_series_key_sorts_before_field_separator"
 		}
+	}
+	// (asked after the sibling test: that defect is tied to this very series key, whatever the
+	// predicate; a delete that skips measurements shows on series without siblings as well)
+	if c.feat["mode"] == "string" && strings.Contains(c.feat["shape"], "meas_neq") {
+		return "user_path_measurement_neq"
 	}
 	return "unknown"
 }
